@@ -246,8 +246,13 @@ def pyRange (n : Nat) : List Int := (List.range n).map Int.ofNat
 /-- `x in xs` -/
 def pyIn (x : Int) (xs : List Int) : Bool := xs.contains x
 
+/-- the distinct elements of `xs` (one representative each; the order is irrelevant for `len(set(xs))`) -/
+def pyDistinct : List Int → List Int
+  | [] => []
+  | x :: xs => if xs.contains x then pyDistinct xs else x :: pyDistinct xs
+
 /-- `len(set(xs))` -/
-def pySetLen (xs : List Int) : Int := xs.eraseDups.length
+def pySetLen (xs : List Int) : Int := (pyDistinct xs).length
 
 /-- `set(xs) == set(ys)` -/
 def pySetEq (xs ys : List Int) : Bool := xs.all (fun x => ys.contains x) && ys.all (fun y => xs.contains y)
